@@ -3,6 +3,7 @@ extraction), L1 (reborrow lifetime of query-time entries)."""
 import json
 from .engine import rule, Result
 from .mir import *
+from . import pathsem
 from .sym import SymEval, Lin
 from . import cprop
 from .rules_tables import view_kind_of, kind_str, trait_args, impl_loc
@@ -152,27 +153,24 @@ def t2_claim_merge(prog):
     body = f.body
     r.inst('Claim::try_merge over %s' % vn)
     rank = {'None': 0, 'Immutable': 1, 'Mutable': 2}
-    rets = set(body.return_blocks())
     for a in range(len(vn)):
         for b in range(len(vn)):
-            cp = cprop.CProp(prog, f)
-            env = {1: ('enum', a, (), adt['path'], vn[a]), 2: ('enum', b, (), adt['path'], vn[b])}
-            res = cp.run(0, env, rets)
+            params = {1: ('agg', adt['path'], vn[a], a, ()), 2: ('agg', adt['path'], vn[b], b, ())}
+            E = pathsem.analyse(prog, f, params=params, inline_eq=True)
             outs = set()
-            for blk, envs in res.items():
-                if blk in rets:
-                    for e in envs:
-                        v = e.get(0, cprop.TOP)
-                        if isinstance(v, tuple) and v and v[0] == 'enum' and v[3] == 'core::option::Option':
-                            if v[4] == 'None':
-                                outs.add(None)
-                            else:
-                                inner = v[2][0]
-                                outs.add(inner[4] if isinstance(inner, tuple) and inner[0] == 'enum' else '?')
-                        else:
-                            outs.add('?')
+            for p in E.paths:
+                if p.ended != 'return':
+                    outs.add('?' + p.ended)
+                    continue
+                v = p.ret
+                if v == pathsem.NONE:
+                    outs.add(None)
+                elif isinstance(v, tuple) and v[0] == 'agg' and v[1] == 'core::option::Option' and v[2] == 'Some' and isinstance(v[4][0], tuple) and v[4][0][0] == 'agg' and v[4][0][1] == adt['path']:
+                    outs.add(v[4][0][2])
                 else:
-                    outs.add('?' + str(blk))
+                    outs.add('?' + pathsem.tstr(v))
+            if E.truncated or not E.paths:
+                outs.add('?truncated')
             A, B = vn[a], vn[b]
             conflict = (A == 'Mutable' and B != 'None') or (B == 'Mutable' and A != 'None')
             want = None if conflict else (A if rank[A] >= rank[B] else B)
@@ -186,21 +184,55 @@ def t2_claim_merge(prog):
             if not fs:
                 continue
             g = fs[0]
-            gb = g.body
-            tm = [(b, t) for b, t in gb.calls(lambda c: c['name'] == 'try_merge')]
-            br = [(b, t) for b, t in gb.calls(lambda c: c['path'] == 'core::ops::Try::branch')]
-            r.inst('Claims::try_merge for (Claim, C): %d merges, %d `?`' % (len(tm), len(br)))
-            if len(tm) != 2:
-                r.viol('T2', 'list/operands', g.loc(), 'list merge must merge head and tail (found %d merges)' % len(tm))
-            somes = [b for b, i, s_ in gb.stmts() if s_['k'] == 'assign' and s_['place']['l'] == 0 and s_['rv']['k'] == 'agg' and s_['rv'].get('path') == 'core::option::Option' and s_['rv']['vname'] == 'Some']
-            for sbk in somes:
-                for b, t in tm:
-                    if not gb.dominates(b, sbk):
-                        r.viol('T2', 'list/some-without-merge', g.loc(t['ln']), 'a path returns Some (compatible) without merging every element of the two claim lists (e.g. an equality fast path: identical lists containing a Mutable claim are exactly the conflicting case)')
-            for b, t in tm:
-                d = derived(gb, {t['dest']['l']})
-                if not any(op_local(bt['args'][0]) in d for bb, bt in br):
-                    r.viol('T2', 'list/refusal-dropped', g.loc(t['ln']), 'a refused merge (None) of one element is not propagated: conflicting claims would be accepted')
+            E = pathsem.analyse(prog, g)
+            rets = [p for p in E.paths if p.ended == 'return']
+            r.inst('Claims::try_merge for (Claim, C): %d returning paths' % len(rets))
+            done = set()
+
+            def once(k, ln, msg):
+                if k not in done:
+                    done.add(k)
+                    r.viol('T2', 'list/' + k, g.loc(ln), msg)
+            if E.truncated or not rets:
+                once('operands', None, 'list merge not analysable')
+            S = pathsem.strip_refs
+
+            def side(t):
+                """(param index, tuple field) of an operand like self.0 / *other.1"""
+                t = S(t)
+                if isinstance(t, tuple) and t[0] == 'f' and t[3] == 'tuple' and isinstance(S(t[1]), tuple) and S(t[1])[0] == 'p':
+                    return (S(t[1])[1], t[2])
+                return None
+            n_some = 0
+            for p in rets:
+                tms = p.calls(lambda e: e['name'] == 'try_merge')
+                slots = {}
+                for e in tms:
+                    sd = sorted(filter(None, (side(x) for x in e['vals'])))
+                    if len(sd) == 2 and sd[0][1] == sd[1][1] and sd[0][0] != sd[1][0]:
+                        slots[sd[0][1]] = e
+                failed = [e for e in tms if p.lookup(('discr', e['ret'])) == 0]
+                if p.ret == pathsem.NONE:
+                    if not failed:
+                        once('refusal-without-conflict', None, 'list merge refuses although no element merge was refused on the path')
+                    continue
+                if not (isinstance(p.ret, tuple) and p.ret[0] == 'agg' and p.ret[2] == 'Some'):
+                    once('operands', None, 'cannot see the value returned by the list merge (%s)' % pathsem.tstr(p.ret))
+                    continue
+                n_some += 1
+                if failed:
+                    once('refusal-dropped', failed[0]['ln'], 'a refused merge (None) of one element is not propagated: conflicting claims would be accepted')
+                if set(slots) != {0, 1}:
+                    once('some-without-merge', None, 'a path returns Some (compatible) without merging every element of the two claim lists (e.g. an equality fast path: identical lists containing a Mutable claim are exactly the conflicting case)')
+                    continue
+                unk = [e for e in slots.values() if p.lookup(('discr', e['ret'])) != 1]
+                if unk:
+                    once('refusal-dropped', unk[0]['ln'], 'the result of an element merge is not checked before the merged list is returned')
+                want = ('agg', 'tuple', None, 0, tuple(('f', ('down', slots[i]['ret'], 'Some', 1), 0, 'core::option::Option') for i in (0, 1)))
+                if p.ret[4][0] != want:
+                    once('operands', None, 'the merged list is not (merged head, merged tail): %s' % pathsem.tstr(p.ret))
+            if not n_some:
+                once('operands', None, 'list merge never returns a merged list')
     return r
 
 
